@@ -31,7 +31,7 @@ GRAPH_MAP = {"servers.0.listeners.0.filter_chains.0.tls_context": "lis_ctx",
 
 def mismatches(txt):
     out = {}
-    for m in re.finditer(r'<<"MISMATCH", (\d+), "([^"]+)">>', txt):
+    for m in re.finditer(r'<<\s*"MISMATCH",\s*(\d+),\s*"([^"]+)"\s*>>', txt):
         out.setdefault(int(m.group(1)), set()).add(m.group(2))
     return out
 
@@ -89,6 +89,47 @@ def drive(ctx, binary, trace, cases, ncases, xpath):
             return fatal
 
 
+def race_phase(ctx, binary):
+    """A persist overlapping an admin dump: TLC enumerates the interleavings of the steps of both (ConfigRedactRace),
+    the driver forces each one on the real code through the verif gates, TLC validates the recorded runs."""
+    rcases = os.path.join(ctx.tmp, "race.jsonl")
+    r = vlib.run_tlc(ctx, FAMILY, "ConfigRedactRace", "ConfigRedactRace.cfg", workers=1, cases_to=rcases, timeout=600)
+    ctx.add_tlc(r)
+    for d in ("ConfigRedactRace_defect1.cfg", "ConfigRedactRace_defect2.cfg"):
+        if vlib.run_tlc(ctx, FAMILY, "ConfigRedactRace", d, workers=1, expect_ok=False)["ok"]:
+            raise vlib.Inconclusive("ConfigRedactRace model does not reject " + d)
+    rtrace = os.path.join(ctx.tmp, "race.ndjson")
+    work = os.path.join(ctx.tmp, "work-race")
+    os.makedirs(work, exist_ok=True)
+    vlib.run_driver(ctx, binary, ["-mode", "race", "-cases", rcases, "-trace", rtrace, "-work", work], timeout=900)
+    evs = vlib.read_jsonl(rtrace)
+    v = vlib.validate_trace(ctx, FAMILY, "ConfigRedactRaceTrace", "ConfigRedactRaceTrace.cfg", rtrace, timeout=900)
+    ctx.cov["states"] += v["distinct"]; ctx.cov["transitions"] += v["generated"]
+    mm = mismatches(v["text"])
+    if not v["accepted"] and not mm and v["matched"] is None:
+        raise vlib.Inconclusive("race trace validation did not complete:\n%s" % v["text"][-1500:])
+    start_at, cur = {}, 0
+    for i, e in enumerate(evs, 1):
+        if e["ev"] == "race":
+            cur = i
+        start_at[i] = cur
+    forced = sum(1 for e in evs if e["ev"] == "result" and not e["diverged"])
+    total = sum(1 for e in evs if e["ev"] == "result")
+    if total and forced * 2 < total:
+        raise vlib.Inconclusive("only %d of %d persist/dump interleavings could be forced (gates missing?)" % (forced, total))
+    for line, ks in sorted(mm.items()):
+        for k in sorted(ks):
+            if k.endswith("schedule-not-forced"):
+                continue
+            run_ = evs[start_at.get(line, 1) - 1:line]
+            vlib.report_failure(ctx, "C20:" + k, dict(line=line, schedule=" ".join(e["s"] for e in run_ if e["ev"] == "step"), run=run_))
+    if v["matched"] is not None and v["matched"] < len(evs):
+        line = v["matched"] + 1
+        vlib.report_failure(ctx, "C20:race:trace-rejected:" + evs[line - 1]["ev"], dict(line=line, run=evs[start_at.get(line, 1) - 1:line]))
+    ctx.cov["race_schedules"] = {"enumerated": r["cases"], "forced": forced}
+    return total
+
+
 def run(ctx):
     q = ctx.quick()
     rng = random.Random(ctx.seed)
@@ -125,8 +166,10 @@ def run(ctx):
     cases = os.path.join(ctx.tmp, "hist.jsonl")
     # pem keys: every depth-2 history (+ sampled depth 3); every key FORM: all one-dump histories from each initial file,
     # and depth-2 histories with runtime updates (sampled in the quick tier)
-    plan = [("ConfigRedact.cfg", None), ("ConfigRedact_forms.cfg", None), ("ConfigRedact_forms2.cfg", 300), ("ConfigRedact_d3.cfg", 200)] if q else \
-           [("ConfigRedact.cfg", None), ("ConfigRedact_forms.cfg", None), ("ConfigRedact_forms2.cfg", None), ("ConfigRedact_d3.cfg", 8000)]
+    plan = [("ConfigRedact.cfg", None), ("ConfigRedact_forms.cfg", None), ("ConfigRedact_spell.cfg", None),
+            ("ConfigRedact_forms2.cfg", 250), ("ConfigRedact_spell2.cfg", 150), ("ConfigRedact_d3.cfg", 150)] if q else \
+           [("ConfigRedact.cfg", None), ("ConfigRedact_forms.cfg", None), ("ConfigRedact_spell.cfg", None),
+            ("ConfigRedact_forms2.cfg", None), ("ConfigRedact_spell2.cfg", None), ("ConfigRedact_d3.cfg", 6000)]
     seen, sampled = set(), False
     with open(cases, "w") as fo:
         for cfg, cap in plan:
@@ -143,7 +186,7 @@ def run(ctx):
     if not q:   # deeper histories, model only (ArrayLen = 2)
         ctx.add_tlc(vlib.run_tlc(ctx, FAMILY, "ConfigRedact", "ConfigRedact_thorough.cfg", timeout=1500,
                                  cfg_text=with_extras("ConfigRedact_thorough.cfg")))
-    for d in ("ConfigRedact_defect1.cfg", "ConfigRedact_defect2.cfg", "ConfigRedact_defect3.cfg", "ConfigRedact_defect4.cfg"):
+    for d in ("ConfigRedact_defect1.cfg", "ConfigRedact_defect2.cfg", "ConfigRedact_defect3.cfg", "ConfigRedact_defect4.cfg", "ConfigRedact_defect5.cfg"):
         if vlib.run_tlc(ctx, FAMILY, "ConfigRedact", d, expect_ok=False)["ok"]:
             raise vlib.Inconclusive("ConfigRedact model does not reject " + d)
 
@@ -177,6 +220,7 @@ def run(ctx):
             report(line, k)
     if v["matched"] is not None and v["matched"] < len(evs):
         report(v["matched"] + 1, "trace-rejected:" + evs[v["matched"]]["ev"])
+    nrace = race_phase(ctx, binary)
     if fatal and not ctx.violations and not ctx.known_hits:
         raise vlib.Inconclusive("MOSN exits during the replay of dump histories and the recorded trace shows no disagreement: %s" % fatal[:2])
     if fatal:
@@ -196,8 +240,8 @@ def run(ctx):
     ctx.cov["key_file_path_in_dumps"] = {"shown_as_is": shown, "replaced_by_placeholder": replaced}
     ctx.notes.append("private_key given as a key-file path: shown as is in %d responses, replaced by the placeholder in %d" % (shown, replaced))
     ndump = sum(1 for e in evs if e["ev"] == "dump")
-    ctx.cov["traces_validated_against_impl"] = sum(1 for e in evs if e["ev"] == "new")
-    ctx.cov["evaluations"] = ndump
+    ctx.cov["traces_validated_against_impl"] = sum(1 for e in evs if e["ev"] == "new") + nrace
+    ctx.cov["evaluations"] = ndump + nrace
     ctx.cov["distinct_nontrivial"] = len(seen)
     ctx.cov["trace_events"] = len(evs)
     for e in evs[:6]:
@@ -207,7 +251,8 @@ def run(ctx):
                        "context list inside an untyped network-filter config and a 3-element server list inside an extend, the "
                        "array positions with every subset of elements carrying an inline key) and Dump(8 endpoints/parameters), every key of a "
                        "history in one of 7 textual forms (PEM, leading white space, pkcs12 preamble, trailing text, CRLF, EC PARAMETERS + "
-                       "key, key-file path; each shown to work by a real handshake), from an "
+                       "key, key-file path; each shown to work by a real handshake), the key NAME at the untyped positions in one of 5 spellings "
+                       "(private_key, Private_Key, PRIVATE_KEY, private\\u005fkey, privateKey; what the consumer's json decoding accepts is a key), from an "
                        "initial file with keys nowhere / everywhere (either chain form) / arrays keyed in the first element only, "
                        "enumerated by TLC; each replayed on a real MOSN; a case is one history, an evaluation one admin response "
                        "searched for every key ever configured" + ("; longer histories sampled by VERIF_SEED" if sampled else ""))
@@ -215,6 +260,8 @@ def run(ctx):
     ctx.assumptions += [
         "positions = typed TLSConfig positions of the reflected type graph + the tunnel agent's typed extend + untyped filter "
         "configurations (single context, list of contexts) + an extend with a list of servers; a new TLSConfig-typed struct field or graph position makes the check inconclusive until it is modelled",
+        "persist x dump interleavings: all 20 orders of the 3+3 steps x {full, mosnconfig} x {first persist, after a quiet persist}, "
+        "forced through the gates cfg.transfer.snapshot/.stored and cfg.redact.copied/.done",
         "keys are searched by a 40-character piece of their base64 body (no escaping can split it)",
         "listeners are registered, not bound: runtime listener updates take the update path of the real connection handler",
     ]
